@@ -101,11 +101,11 @@ def shrink_case(case):
     if len(case["envs"]) > 1:
         for i in range(len(case["envs"])):
             yield dict(case, envs=[case["envs"][i]])
-    for a in G.shrink_ast(case["ast"]):
-        yield dict(case, ast=a)
     if len(case["envs"]) == 1:
         for e in G.shrink_env(case["envs"][0]):
             yield dict(case, envs=[e])
+    for a in G.shrink_ast(case["ast"]):
+        yield dict(case, ast=a)
     if case["ast"]["n_acc"] == 1 and case["ast"]["n_fields"][0] > 1:
         # drop the last field of accelerator 0
         def cut(body):
